@@ -26,7 +26,7 @@ for d in seeded/*/; do
   [ -f "$d/patch.diff" ] || continue
   if [ -f "$d/props" ]; then
     want $(cat "$d/props") || continue
-    if [ -n "$(cat "$d/props" | tr -d ' \n')" ]; then echo "${d}patch.diff $(cat "$d/props" | tr '\n' ' ')" >> $list; else echo "open $d (recorded as not yet caught, DESIGN §16)"; fi
+    if [ -n "$(cat "$d/props" | tr -d ' \n')" ]; then echo "${d}patch.diff $(cat "$d/props" | tr '\n' ' ' | sed 's/ *$//')" >> $list; else echo "open $d (recorded as not yet caught, DESIGN §16)"; fi
   fi
 done
 res=$(mktemp)
